@@ -874,7 +874,7 @@ fn holes_program(rng: &mut Rng) -> String {
             text.push_str(&format!("u{}\n", rng.below(n)));
             text
         }
-        3 | 4 if rng.chance(1, 2) => {
+        4 if rng.chance(1, 2) => {
             // a hole of an *outer* binder that has to be solved inside a block, against a type
             // that mentions several of the block's own definitions, some defined through others
             // (the solution must not refer to them once it escapes the block)
@@ -898,7 +898,7 @@ fn holes_program(rng: &mut Rng) -> String {
             text.push_str(&format!("  y : ({a} -> {b}) = x\n  y\nf\n"));
             text
         }
-        3 | 4 if rng.chance(1, 3) => {
+        4 if rng.chance(1, 3) => {
             // an unannotated recursive definition whose inferred type would have to contain itself
             // (the occurs check is what rejects it), hidden behind n unannotated parameters
             let n = rng.range(0, 16);
@@ -1207,6 +1207,9 @@ fn type_level_program(rng: &mut Rng) -> String {
         format!("(vec : int -> type) =>\n(len : int -> int) =>\n(f : (n : int) -> vec (len {a} {op} n) -> int) =>\n(n : int) => (v : vec (len ({} + {}) {op} n)) => f n v\n", a / 2, a - a / 2),
         format!("(vec : int -> type) =>\n(len : int -> int) =>\n(f : (n : int) -> vec (n {op} len ({a} * 1)) -> int) =>\n(n : int) => (v : vec (n {op} len {a})) => f n v\n"),
         format!("(vec : int -> type) =>\n(g : int -> int) => (h : int -> int) =>\n(f : (n : int) -> vec (g (1 + {a}) {op} h n) -> int) =>\n(n : int) => (v : vec (g ({a} + 1) {op} h n)) => f n v\n"),
+        // truncating division: agrees with the identity at many points, not at all of them
+        format!("(vec : int -> type) =>\n(f : (n : int) -> vec n -> int) =>\n(n : int) => (v : vec (n / {} * {})) => f n v\n", 2 + a % 7, 2 + a % 7),
+        format!("(vec : int -> type) =>\n(f : (n : int) -> vec (n / 2) -> int) =>\n(n : int) => (v : vec ((n + 1) / 2)) => f n v\n"),
         format!("two = 1 + 1\n(vec : int -> type) =>\n(len : int -> int) =>\n(f : (n : int) -> vec (len two {op} n) -> int) =>\n(n : int) => (v : vec (len 2 {op} n)) => f n v\n"),
     ];
     templates[rng.below(templates.len())].clone()
